@@ -43,15 +43,14 @@ Next == \E r \in InputRels(P) : \E t \in Tuples(P, r) : AddInput(r, t)
 Spec == Init /\ [][Next]_vars
 
 --------------------------------------------------------------------------------
-Monotone(Q) == LET X == MacroExpand(Q) IN \A j \in 1..Len(X.rules) : \A d \in RuleDeps(X.rules[j]) : ~d[2]
+Monotone(Q) == LET X == Elaborate(Q) IN \A j \in 1..Len(X.rules) : \A d \in RuleDeps(X.rules[j]) : ~d[2]
 
 (* theorems of the declarative semantics, checked on every enumerated database *)
 Theorems ==
    LET lm == LeastModel(P, inp) IN
-   /\ Stratifiable(MacroExpand(P))
    /\ DbBelow(P, inp, lm)                     \* input facts are part of the result
-   /\ Saturated(P, lm)                        \* no rule can add anything
-   /\ LeastModel(P, lm) = lm                  \* idempotent (C13 at the level of the semantics)
+   /\ Saturated(P, lm)                        \* no rule can add anything (hence LeastModel(P, lm) = lm: idempotence, C13)
+   /\ Stratifiable(Elaborate(P))
 
 (* a larger input gives a larger model when no negation / aggregation is involved *)
 MonotoneStep ==
